@@ -9,3 +9,195 @@ package compiler
 //@ func hasOperand
 //@   modifies nothing
 //@   ensures result == hasOp(vm.Opcode(opcode))
+
+// ---- constant folding (C03): a folded operation must be the literal the language oracle (contracts/lang.spec)
+// ---- assigns to the operation on those operands - the same oracle the VM's operators are verified against
+//@ spec func kindL(x ast.Literal) int = ite(typeis(x, ast.NullLiteral), 0, ite(typeis(x, ast.IntLiteral), 1, ite(typeis(x, ast.FloatLiteral), 2, ite(typeis(x, ast.StringLiteral), 3, ite(typeis(x, ast.BoolLiteral), 4, 7)))))
+//@ spec func intL(x ast.Literal) int64 = x.(ast.IntLiteral).Value
+//@ spec func fltL(x ast.Literal) float64 = x.(ast.FloatLiteral).Value
+//@ spec func strL(x ast.Literal) string = x.(ast.StringLiteral).Value
+//@ spec func boolL(x ast.Literal) bool = x.(ast.BoolLiteral).Value
+//@ spec func toFL(x ast.Literal) float64 = ite(typeis(x, ast.IntLiteral), float64(x.(ast.IntLiteral).Value), x.(ast.FloatLiteral).Value)
+//@ spec func eqL(l ast.Literal, r ast.Literal) bool = eqVal(kindL(l), intL(l), toFL(l), strL(l), boolL(l), kindL(r), intL(r), toFL(r), strL(r), boolL(r))
+//@ spec func isLit(e ast.Expr) bool = typeis(e, *ast.LiteralExpr)
+
+//@ func (*Optimizer).foldLiteralBinaryOp
+//@   strict
+//@   requires left != nil && right != nil
+//@   modifies nothing
+//@   ensures result != nil && (isLit(result) || typeis(result, *ast.BinaryOpExpr))
+//@   ensures isLit(result) ==> result.(*ast.LiteralExpr) != nil && fresh(result.(*ast.LiteralExpr))
+//@   ensures !isLit(result) ==> result.(*ast.BinaryOpExpr).Op == op && result.(*ast.BinaryOpExpr).Left.(*ast.LiteralExpr) == left && result.(*ast.BinaryOpExpr).Right.(*ast.LiteralExpr) == right
+//@   ensures isLit(result) && op == ast.Add ==> kindL(result.(*ast.LiteralExpr).Value) == addKind(kindL(left.Value), kindL(right.Value)) && isNum(kindL(result.(*ast.LiteralExpr).Value))
+//@   ensures isLit(result) && op == ast.Add && kindL(result.(*ast.LiteralExpr).Value) == 1 ==> intL(result.(*ast.LiteralExpr).Value) == intAdd(intL(left.Value), intL(right.Value))
+//@   ensures isLit(result) && op == ast.Add && kindL(result.(*ast.LiteralExpr).Value) == 2 ==> fltL(result.(*ast.LiteralExpr).Value) == toFL(left.Value) + toFL(right.Value)
+//@   ensures isLit(result) && op == ast.Sub ==> kindL(result.(*ast.LiteralExpr).Value) == numKind(kindL(left.Value), kindL(right.Value)) && isNum(kindL(result.(*ast.LiteralExpr).Value))
+//@   ensures isLit(result) && op == ast.Sub && kindL(result.(*ast.LiteralExpr).Value) == 1 ==> intL(result.(*ast.LiteralExpr).Value) == intSub(intL(left.Value), intL(right.Value))
+//@   ensures isLit(result) && op == ast.Sub && kindL(result.(*ast.LiteralExpr).Value) == 2 ==> fltL(result.(*ast.LiteralExpr).Value) == toFL(left.Value) - toFL(right.Value)
+//@   ensures isLit(result) && op == ast.Mul ==> kindL(result.(*ast.LiteralExpr).Value) == numKind(kindL(left.Value), kindL(right.Value)) && isNum(kindL(result.(*ast.LiteralExpr).Value))
+//@   ensures isLit(result) && op == ast.Mul && kindL(result.(*ast.LiteralExpr).Value) == 1 ==> intL(result.(*ast.LiteralExpr).Value) == intMul(intL(left.Value), intL(right.Value))
+//@   ensures isLit(result) && op == ast.Mul && kindL(result.(*ast.LiteralExpr).Value) == 2 ==> fltL(result.(*ast.LiteralExpr).Value) == toFL(left.Value) * toFL(right.Value)
+//@   ensures isLit(result) && op == ast.Div ==> (numKind(kindL(left.Value), kindL(right.Value)) == 1 && intL(right.Value) != 0 || numKind(kindL(left.Value), kindL(right.Value)) == 2 && !feq(toFL(right.Value), 0.0)) && kindL(result.(*ast.LiteralExpr).Value) == numKind(kindL(left.Value), kindL(right.Value))
+//@   ensures isLit(result) && op == ast.Div && kindL(result.(*ast.LiteralExpr).Value) == 1 ==> intL(result.(*ast.LiteralExpr).Value) == intDiv(intL(left.Value), intL(right.Value))
+//@   ensures isLit(result) && op == ast.Div && kindL(result.(*ast.LiteralExpr).Value) == 2 ==> fltL(result.(*ast.LiteralExpr).Value) == toFL(left.Value) / toFL(right.Value)
+//@   ensures isLit(result) && op == ast.Mod ==> (numKind(kindL(left.Value), kindL(right.Value)) == 1 && intL(right.Value) != 0 || numKind(kindL(left.Value), kindL(right.Value)) == 2 && !feq(toFL(right.Value), 0.0)) && kindL(result.(*ast.LiteralExpr).Value) == numKind(kindL(left.Value), kindL(right.Value))
+//@   ensures isLit(result) && op == ast.Mod && kindL(result.(*ast.LiteralExpr).Value) == 1 ==> intL(result.(*ast.LiteralExpr).Value) == intMod(intL(left.Value), intL(right.Value))
+//@   ensures isLit(result) && op == ast.Mod && kindL(result.(*ast.LiteralExpr).Value) == 2 ==> fltL(result.(*ast.LiteralExpr).Value) == libcall(math.Mod, toFL(left.Value), toFL(right.Value))
+//@   ensures isLit(result) && op == ast.Lt ==> cmpKind(kindL(left.Value), kindL(right.Value)) != -1 && kindL(result.(*ast.LiteralExpr).Value) == 4
+//@   ensures isLit(result) && op == ast.Lt && kindL(left.Value) == 1 && kindL(right.Value) == 1 ==> boolL(result.(*ast.LiteralExpr).Value) == (intL(left.Value) < intL(right.Value))
+//@   ensures isLit(result) && op == ast.Lt && isNum(kindL(left.Value)) && !(kindL(left.Value) == 1 && kindL(right.Value) == 1) ==> boolL(result.(*ast.LiteralExpr).Value) == (toFL(left.Value) < toFL(right.Value))
+//@   ensures isLit(result) && op == ast.Lt && kindL(left.Value) == 3 ==> boolL(result.(*ast.LiteralExpr).Value) == strlt(strL(left.Value), strL(right.Value))
+//@   ensures isLit(result) && op == ast.Le ==> cmpKind(kindL(left.Value), kindL(right.Value)) != -1 && kindL(result.(*ast.LiteralExpr).Value) == 4
+//@   ensures isLit(result) && op == ast.Le && kindL(left.Value) == 1 && kindL(right.Value) == 1 ==> boolL(result.(*ast.LiteralExpr).Value) == (intL(left.Value) <= intL(right.Value))
+//@   ensures isLit(result) && op == ast.Le && isNum(kindL(left.Value)) && !(kindL(left.Value) == 1 && kindL(right.Value) == 1) ==> boolL(result.(*ast.LiteralExpr).Value) == (toFL(left.Value) <= toFL(right.Value))
+//@   ensures isLit(result) && op == ast.Le && kindL(left.Value) == 3 ==> boolL(result.(*ast.LiteralExpr).Value) == !strlt(strL(right.Value), strL(left.Value))
+//@   ensures isLit(result) && op == ast.Gt ==> cmpKind(kindL(left.Value), kindL(right.Value)) != -1 && kindL(result.(*ast.LiteralExpr).Value) == 4
+//@   ensures isLit(result) && op == ast.Gt && kindL(left.Value) == 1 && kindL(right.Value) == 1 ==> boolL(result.(*ast.LiteralExpr).Value) == (intL(left.Value) > intL(right.Value))
+//@   ensures isLit(result) && op == ast.Gt && isNum(kindL(left.Value)) && !(kindL(left.Value) == 1 && kindL(right.Value) == 1) ==> boolL(result.(*ast.LiteralExpr).Value) == (toFL(left.Value) > toFL(right.Value))
+//@   ensures isLit(result) && op == ast.Gt && kindL(left.Value) == 3 ==> boolL(result.(*ast.LiteralExpr).Value) == strlt(strL(right.Value), strL(left.Value))
+//@   ensures isLit(result) && op == ast.Ge ==> cmpKind(kindL(left.Value), kindL(right.Value)) != -1 && kindL(result.(*ast.LiteralExpr).Value) == 4
+//@   ensures isLit(result) && op == ast.Ge && kindL(left.Value) == 1 && kindL(right.Value) == 1 ==> boolL(result.(*ast.LiteralExpr).Value) == (intL(left.Value) >= intL(right.Value))
+//@   ensures isLit(result) && op == ast.Ge && isNum(kindL(left.Value)) && !(kindL(left.Value) == 1 && kindL(right.Value) == 1) ==> boolL(result.(*ast.LiteralExpr).Value) == (toFL(left.Value) >= toFL(right.Value))
+//@   ensures isLit(result) && op == ast.Ge && kindL(left.Value) == 3 ==> boolL(result.(*ast.LiteralExpr).Value) == !strlt(strL(left.Value), strL(right.Value))
+//@   ensures isLit(result) && op == ast.Eq ==> kindL(result.(*ast.LiteralExpr).Value) == 4 && boolL(result.(*ast.LiteralExpr).Value) == eqL(left.Value, right.Value)
+//@   ensures isLit(result) && op == ast.Ne ==> kindL(result.(*ast.LiteralExpr).Value) == 4 && boolL(result.(*ast.LiteralExpr).Value) == !eqL(left.Value, right.Value)
+//@   ensures isLit(result) && op == ast.And ==> kindL(left.Value) == 4 && kindL(right.Value) == 4 && kindL(result.(*ast.LiteralExpr).Value) == 4 && boolL(result.(*ast.LiteralExpr).Value) == (boolL(left.Value) && boolL(right.Value))
+//@   ensures isLit(result) && op == ast.Or ==> kindL(left.Value) == 4 && kindL(right.Value) == 4 && kindL(result.(*ast.LiteralExpr).Value) == 4 && boolL(result.(*ast.LiteralExpr).Value) == (boolL(left.Value) || boolL(right.Value))
+//@   ensures isLit(result) ==> op == ast.Add || op == ast.Sub || op == ast.Mul || op == ast.Div || op == ast.Mod || op == ast.Eq || op == ast.Ne || op == ast.Lt || op == ast.Le || op == ast.Gt || op == ast.Ge || op == ast.And || op == ast.Or
+
+// ---- algebraic simplification (C03): one operand is a literal, the other (x) is an arbitrary expression whose run-time
+// ---- value is unknown: evK/evI/evB are uninterpreted views of that value (kind, int payload, bool payload) in an arbitrary
+// ---- environment, pureE(x) says that evaluating x has no side effect and cannot fail. A rewrite is sound when it yields the
+// ---- oracle's result for EVERY such value; obligations that fail here are rewrites that change the outcome for some value of x.
+//@ spec func evK(e ast.Expr) int
+//@ spec func evI(e ast.Expr) int64
+//@ spec func evB(e ast.Expr) bool
+//@ spec func pureE(e ast.Expr) bool
+//@ spec func binKind(op ast.BinOp, kl int, kr int) int = ite(op == ast.Add, addKind(kl, kr), ite(op == ast.Sub || op == ast.Mul || op == ast.Div || op == ast.Mod, numKind(kl, kr), ite(op == ast.Lt || op == ast.Le || op == ast.Gt || op == ast.Ge, cmpKind(kl, kr), ite(op == ast.Eq || op == ast.Ne, 4, ite(kl == 4 && kr == 4, 4, -1)))))
+//@ spec func binInt(op ast.BinOp, a int64, b int64) int64 = ite(op == ast.Add, intAdd(a, b), ite(op == ast.Sub, intSub(a, b), ite(op == ast.Mul, intMul(a, b), ite(op == ast.Div, intDiv(a, b), intMod(a, b)))))
+//@ spec func simpX(left ast.Expr, right ast.Expr, leftIsLit bool) ast.Expr = ite(leftIsLit, right, left)
+//@ spec func simpL(left ast.Expr, right ast.Expr, leftIsLit bool) ast.Literal = ite(leftIsLit, left, right).(*ast.LiteralExpr).Value
+//@ spec func simpKL(left ast.Expr, right ast.Expr, leftIsLit bool) int = ite(leftIsLit, kindL(simpL(left, right, leftIsLit)), evK(simpX(left, right, leftIsLit)))
+//@ spec func simpKR(left ast.Expr, right ast.Expr, leftIsLit bool) int = ite(leftIsLit, evK(simpX(left, right, leftIsLit)), kindL(simpL(left, right, leftIsLit)))
+//@ spec func simpIL(left ast.Expr, right ast.Expr, leftIsLit bool) int64 = ite(leftIsLit, intL(simpL(left, right, leftIsLit)), evI(simpX(left, right, leftIsLit)))
+//@ spec func simpIR(left ast.Expr, right ast.Expr, leftIsLit bool) int64 = ite(leftIsLit, evI(simpX(left, right, leftIsLit)), intL(simpL(left, right, leftIsLit)))
+// the left literal alone decides a short-circuit operator: x is never evaluated
+//@ spec func shortCut(op ast.BinOp, left ast.Expr, right ast.Expr, leftIsLit bool) bool = leftIsLit && kindL(simpL(left, right, leftIsLit)) == 4 && ((op == ast.And && !boolL(simpL(left, right, leftIsLit))) || (op == ast.Or && boolL(simpL(left, right, leftIsLit))))
+
+//@ spec func litNum(l ast.Literal, n int64, f float64) bool = (kindL(l) == 1 && intL(l) == n) || (kindL(l) == 2 && feq(fltL(l), f))
+// a binary node built by this call (x itself existed before the call, so it is never one)
+//@ spec func newBin(e ast.Expr) bool = typeis(e, *ast.BinaryOpExpr) && fresh(e.(*ast.BinaryOpExpr))
+//@ func (*Optimizer).algebraicSimplify
+//@   strict
+//@   requires o != nil && left != nil && right != nil
+//@   requires leftIsLit ==> isLit(left) && !isLit(right)
+//@   requires !leftIsLit ==> isLit(right) && !isLit(left)
+//@   modifies nothing
+//@   ensures result == nil || result == simpX(left, right, leftIsLit) || isLit(result) || typeis(result, *ast.BinaryOpExpr)
+//@   ensures result != nil && result == simpX(left, right, leftIsLit) ==> op == ast.Add || op == ast.Sub || op == ast.Mul || op == ast.Div || op == ast.And || op == ast.Or
+//@   ensures result != nil && result == simpX(left, right, leftIsLit) && !newBin(result) && op == ast.Add ==> binKind(op, simpKL(left, right, leftIsLit), simpKR(left, right, leftIsLit)) == evK(simpX(left, right, leftIsLit)) && (evK(simpX(left, right, leftIsLit)) == 1 ==> binInt(op, simpIL(left, right, leftIsLit), simpIR(left, right, leftIsLit)) == evI(simpX(left, right, leftIsLit)))
+//@   ensures result != nil && result == simpX(left, right, leftIsLit) && !newBin(result) && op == ast.Sub ==> binKind(op, simpKL(left, right, leftIsLit), simpKR(left, right, leftIsLit)) == evK(simpX(left, right, leftIsLit)) && (evK(simpX(left, right, leftIsLit)) == 1 ==> binInt(op, simpIL(left, right, leftIsLit), simpIR(left, right, leftIsLit)) == evI(simpX(left, right, leftIsLit)))
+//@   ensures result != nil && result == simpX(left, right, leftIsLit) && !newBin(result) && op == ast.Mul ==> binKind(op, simpKL(left, right, leftIsLit), simpKR(left, right, leftIsLit)) == evK(simpX(left, right, leftIsLit)) && (evK(simpX(left, right, leftIsLit)) == 1 ==> binInt(op, simpIL(left, right, leftIsLit), simpIR(left, right, leftIsLit)) == evI(simpX(left, right, leftIsLit)))
+//@   ensures result != nil && result == simpX(left, right, leftIsLit) && !newBin(result) && op == ast.Div ==> binKind(op, simpKL(left, right, leftIsLit), simpKR(left, right, leftIsLit)) == evK(simpX(left, right, leftIsLit)) && (evK(simpX(left, right, leftIsLit)) == 1 ==> binInt(op, simpIL(left, right, leftIsLit), simpIR(left, right, leftIsLit)) == evI(simpX(left, right, leftIsLit)))
+//@   ensures result != nil && result == simpX(left, right, leftIsLit) && !newBin(result) && op == ast.And ==> evK(simpX(left, right, leftIsLit)) == 4
+//@   ensures result != nil && result == simpX(left, right, leftIsLit) && !newBin(result) && op == ast.Or ==> evK(simpX(left, right, leftIsLit)) == 4
+//@   ensures isLit(result) && shortCut(op, left, right, leftIsLit) ==> kindL(result.(*ast.LiteralExpr).Value) == 4 && boolL(result.(*ast.LiteralExpr).Value) == (op == ast.Or)
+//@   ensures isLit(result) && !shortCut(op, left, right, leftIsLit) ==> pureE(simpX(left, right, leftIsLit)) && binKind(op, simpKL(left, right, leftIsLit), simpKR(left, right, leftIsLit)) == kindL(result.(*ast.LiteralExpr).Value)
+//@   ensures newBin(result) ==> pureE(simpX(left, right, leftIsLit)) && binKind(op, simpKL(left, right, leftIsLit), simpKR(left, right, leftIsLit)) == addKind(evK(simpX(left, right, leftIsLit)), evK(simpX(left, right, leftIsLit)))
+// trigger conditions: necessary for the rewrites above to be right even on integers; they hold on the current code and keep a
+// recorded finding from hiding a further loosening of the same rewrite
+//@   ensures result != nil && result == simpX(left, right, leftIsLit) && !newBin(result) && op == ast.Add ==> litNum(simpL(left, right, leftIsLit), 0, 0.0)
+//@   ensures result != nil && result == simpX(left, right, leftIsLit) && !newBin(result) && op == ast.Sub ==> litNum(simpL(left, right, leftIsLit), 0, 0.0) && !leftIsLit
+//@   ensures result != nil && result == simpX(left, right, leftIsLit) && !newBin(result) && op == ast.Mul ==> litNum(simpL(left, right, leftIsLit), 1, 1.0)
+//@   ensures result != nil && result == simpX(left, right, leftIsLit) && !newBin(result) && op == ast.Div ==> litNum(simpL(left, right, leftIsLit), 1, 1.0) && !leftIsLit
+//@   ensures result != nil && result == simpX(left, right, leftIsLit) && !newBin(result) && op == ast.And ==> kindL(simpL(left, right, leftIsLit)) == 4 && boolL(simpL(left, right, leftIsLit))
+//@   ensures result != nil && result == simpX(left, right, leftIsLit) && !newBin(result) && op == ast.Or ==> kindL(simpL(left, right, leftIsLit)) == 4 && !boolL(simpL(left, right, leftIsLit))
+//@   ensures isLit(result) && op == ast.Mul ==> litNum(simpL(left, right, leftIsLit), 0, 0.0) && kindL(result.(*ast.LiteralExpr).Value) == 1 && intL(result.(*ast.LiteralExpr).Value) == 0
+//@   ensures isLit(result) && op == ast.And ==> kindL(simpL(left, right, leftIsLit)) == 4 && !boolL(simpL(left, right, leftIsLit)) && kindL(result.(*ast.LiteralExpr).Value) == 4 && !boolL(result.(*ast.LiteralExpr).Value)
+//@   ensures isLit(result) && op == ast.Or ==> kindL(simpL(left, right, leftIsLit)) == 4 && boolL(simpL(left, right, leftIsLit)) && kindL(result.(*ast.LiteralExpr).Value) == 4 && boolL(result.(*ast.LiteralExpr).Value)
+//@   ensures isLit(result) ==> op == ast.Mul || op == ast.And || op == ast.Or
+//@   ensures newBin(result) ==> op == ast.Mul && litNum(simpL(left, right, leftIsLit), 2, 2.0) && o.level >= OptAggressive && result.(*ast.BinaryOpExpr).Op == ast.Add && result.(*ast.BinaryOpExpr).Left == simpX(left, right, leftIsLit) && result.(*ast.BinaryOpExpr).Right == simpX(left, right, leftIsLit)
+
+// ---- code generation for operators (C02): each operator node is compiled to the opcode of the same operator, operands in
+// ---- source order; && and || are compiled with a conditional jump between the operands, so the right operand is not
+// ---- evaluated when the left one decides (the interpreter's rule)
+//@ spec func opcodeOf(op ast.BinOp) vm.Opcode = ite(op == ast.Add, vm.OpAdd, ite(op == ast.Sub, vm.OpSub, ite(op == ast.Mul, vm.OpMul, ite(op == ast.Div, vm.OpDiv, ite(op == ast.Mod, vm.OpMod, ite(op == ast.Eq, vm.OpEq, ite(op == ast.Ne, vm.OpNe, ite(op == ast.Lt, vm.OpLt, ite(op == ast.Le, vm.OpLe, ite(op == ast.Gt, vm.OpGt, ite(op == ast.Ge, vm.OpGe, ite(op == ast.And, vm.OpAnd, vm.OpOr))))))))))))
+//@ func (*Compiler).emit
+//@   strict
+//@   requires c != nil
+//@   modifies c.code, elems(c.code)
+//@   ensures len(c.code) == old(len(c.code)) + 1 && c.code[len(c.code)-1] == byte(opcode)
+//@   ensures forall(k, 0, old(len(c.code)), c.code[k] == old(c.code[k]))
+//@ func (*Compiler).emitWithOperand
+//@   strict
+//@   requires c != nil
+//@   modifies c.code, elems(c.code)
+//@   ensures len(c.code) == old(len(c.code)) + 5 && c.code[len(c.code)-5] == byte(opcode)
+//@   ensures forall(k, 0, old(len(c.code)), c.code[k] == old(c.code[k]))
+// trusted frame: code generation writes the compiler's own state (code, constants, symbol tables, loop stack), never the tree
+//@ func (*Compiler).compileExpression
+//@   trusted
+//@   modifies c.code, elems(c.code), c.constants, elems(c.constants), c.symbolTable, c.labelCounter, c.loopStack, elems(c.loopStack), allfields(SymbolTable.parent), allfields(SymbolTable.symbols), allfields(SymbolTable.scope), allmaps(map[string]*Symbol), allfields(Symbol.IsDefined), allfields(Symbol.Index), allfields(Symbol.ConstantIdx), allfields(Symbol.IsConstant)
+//@ func (*Compiler).addConstant
+//@   trusted
+//@   modifies c.constants, elems(c.constants)
+//@ func (*Compiler).patchJump
+//@   trusted
+//@   modifies elems(c.code)
+//@   ensures forall(k, 0, len(c.code), k < offset + 1 || k > offset + 4 ==> c.code[k] == old(c.code[k]))
+
+//@ func (*Compiler).compileBinaryOp
+//@   strict
+//@   requires c != nil && expr != nil
+//@   callpre (*compiler.Compiler).compileExpression expr.Op != ast.And && expr.Op != ast.Or
+//@   callpre (*compiler.Compiler).emit arg1 == opcodeOf(expr.Op) && expr.Op != ast.And && expr.Op != ast.Or
+//@   callpre (*compiler.Compiler).compileLogicalOp (expr.Op == ast.And || expr.Op == ast.Or) && arg1 == expr
+//@ func (*Compiler).compileLogicalOp
+//@   strict
+//@   requires c != nil && expr != nil && (expr.Op == ast.And || expr.Op == ast.Or)
+//@   callpre (*compiler.Compiler).compileExpression arg1 == expr.Left || (arg1 == expr.Right && len(c.code) >= 5 && c.code[len(c.code)-5] == byte(ite(expr.Op == ast.And, vm.OpJumpIfFalse, vm.OpJumpIfTrue)))
+//@   callpre (*compiler.Compiler).emit arg1 == opcodeOf(expr.Op)
+//@ func (*Compiler).compileUnaryOp
+//@   strict
+//@   requires c != nil && expr != nil
+//@   callpre (*compiler.Compiler).emit (expr.Op == ast.Not && arg1 == vm.OpNot) || (expr.Op == ast.Neg && arg1 == vm.OpNeg)
+
+// ---- dataflow facts of OptimizeStatements (C03): kill conditions that every sound gen/kill propagation satisfies, placed as
+// ---- ghost assertions where a statement has just been processed. modifiedIn(stmts, v): v is assigned somewhere in stmts
+// ---- (the meaning of getModifiedVariables, trusted); pureE as above.
+//@ spec func modifiedIn(stmts []ast.Statement, v string) bool
+// runsOnce(c): a loop with condition c executes its body at least once (never established by the code: uninterpreted)
+//@ spec func runsOnce(c ast.Expr) bool
+//@ spec func selfCopy(e ast.Expr, t string) bool = typeis(e, *ast.VariableExpr) && e.(*ast.VariableExpr).Name == t
+//@ func (*Optimizer).OptimizeExpression
+//@   trusted
+//@   modifies nothing
+//@ func exprKey
+//@   trusted
+//@   pure
+//@ func getModifiedVariables
+//@   trusted
+//@   modifies nothing
+//@   ensures result != nil && fresh(result) && forall(v, string, has(result, v) == modifiedIn(stmts, v))
+//@ func getUsedVariables
+//@   trusted
+//@   modifies nothing
+//@ func isExprInvariant
+//@   trusted
+//@   modifies nothing
+//@ func (*Optimizer).OptimizeStatements
+//@   requires o != nil && o.constants != nil && o.copies != nil && o.expressions != nil
+// after `T = e`: no other variable is still recorded as a copy of T (its old value is gone), unless the statement is T = T
+//@   assertat "result = append(result, optimized)"#1 selfCopy(optimizedValue, s.Target) || forall(k, string, has(o.copies, k) && k != s.Target ==> o.copies[k] != s.Target)
+//@   assertat "result = append(result, optimized)"#2 selfCopy(optimizedValue, s.Target) || forall(k, string, has(o.copies, k) && k != s.Target ==> o.copies[k] != s.Target)
+//@   assertat "result = append(result, &ast.ReassignStatement{" selfCopy(optimizedValue, s.Target) || forall(k, string, has(o.copies, k) && k != s.Target ==> o.copies[k] != s.Target)
+// after an if statement whose condition is not constant: nothing is known about a variable assigned in either branch
+//@   assertat "result = append(result, optimized)"#4 forall(v, string, modifiedIn(s.ThenBlock, v) || modifiedIn(s.ElseBlock, v) ==> !has(o.constants, v) && !has(o.copies, v))
+// after a while statement: nothing is known about a variable assigned in its body (the body may run any number of times, or not at all)
+//@   assertat "result = append(result, optimized)"#5 forall(v, string, modifiedIn(s.Body, v) ==> !has(o.constants, v) && !has(o.copies, v))
+// loop-invariant code motion runs the hoisted assignment once, before the loop, even when the loop body never runs
+//@   assertat "invariantStmts = append(invariantStmts, assignStmt)" pureE(assignStmt.Value) && runsOnce(s.Condition)
+// a for statement is kept as it is: nothing is known afterwards about a variable assigned in its body or about its loop variables
+// (proved: the invalidation loop visits every modified variable)
+//@   loop 5 invariant forall(v, string, visited(2, v) ==> !has(o.constants, v) && !has(o.copies, v))
+//@   assertat "result = append(result, s)"#1 forall(v, string, modifiedIn(s.Body, v) ==> !has(o.constants, v) && !has(o.copies, v)) && !has(o.constants, s.ValueVar) && !has(o.copies, s.ValueVar)
